@@ -29,6 +29,9 @@ type rReq struct {
 	Path   string `json:"path"` // the path as the router sees it: becomes URL.RawPath when Raw is set, else URL.Path
 	Host   string `json:"host,omitempty"`
 	Raw    bool   `json:"raw,omitempty"` // send Path as URL.RawPath (URL.Path = its percent-decoded form)
+	// Override: the request arrives as POST carrying X-HTTP-Method-Override: <Method>; the application installs
+	// middleware.MethodOverride() with e.Pre, so the method the router must use is Method
+	Override bool `json:"override,omitempty"`
 }
 
 // rObs is what the real code did with one request.
@@ -42,7 +45,19 @@ type rObs struct {
 	Allow  []string
 	Status int
 	Panic  string
+	// not part of the compared observation:
+	shared    []string // a slice the application owns and hands to SetParamValues (kept across requests of one Echo)
+	fwd       *rReq    // when set: the handler forwards internally (Router.Find on its own context) to this request
+	FwdPath   string   // what the context shows after the forward
+	FwdNames  []string
+	FwdValues []string
+	FwdDone   bool
 }
+
+// keep: the fields that live as long as the Echo instance
+func (o rObs) keep() rObs { return rObs{shared: o.shared} }
+
+func rSharedPristine(i int) string { return "app" + strconv.Itoa(i) }
 
 func (o rObs) wire() string {
 	switch o.Kind {
@@ -82,11 +97,37 @@ func rAddRoutes(e *echo.Echo, routes []rRoute, from int, cur *rObs) {
 	for i := from; i < len(routes); i++ {
 		i := i
 		h := func(c echo.Context) error {
+			if cur.shared == nil {
+				cur.shared = make([]string, 24)
+				for k := range cur.shared {
+					cur.shared[k] = rSharedPristine(k)
+				}
+			}
+			for k, v := range cur.shared {
+				if v != rSharedPristine(k) {
+					// the framework wrote into memory the application owns
+					cur.Kind, cur.Panic = 'P', fmt.Sprintf("application-owned slice clobbered at %d: %q", k, v)
+					cur.shared[k] = rSharedPristine(k)
+					return c.NoContent(http.StatusOK)
+				}
+			}
 			cur.Kind = 'D'
 			cur.Hid = i
 			cur.PPath = c.Path()
 			cur.Names = append([]string{}, c.ParamNames()...)
 			cur.Values = append([]string{}, c.ParamValues()...)
+			if cur.fwd != nil {
+				// internal forward: the handler routes ANOTHER path on its own context and looks at the result
+				c.Echo().Router().Find(cur.fwd.Method, cur.fwd.Path, c)
+				cur.FwdDone = true
+				cur.FwdPath = c.Path()
+				cur.FwdNames = append([]string{}, c.ParamNames()...)
+				func() {
+					defer func() { recover() }()
+					cur.FwdValues = append([]string{}, c.ParamValues()...)
+				}()
+			}
+			c.SetParamValues(cur.shared...) // the application passes a slice of its own (longer than any route needs)
 			rScribble(c)
 			return c.NoContent(http.StatusOK)
 		}
@@ -193,7 +234,7 @@ func rEchoWarm(routes []rRoute, warm int, warmReqs []rReq, cur *rObs) *echo.Echo
 			rServe(e, cur, q)
 		}
 		rAddRoutes(e, routes, warm, cur)
-		*cur = rObs{}
+		*cur = cur.keep()
 	}()
 	e.Use(func(next echo.HandlerFunc) echo.HandlerFunc {
 		return func(c echo.Context) error {
@@ -223,16 +264,26 @@ func rNewRequest(q rReq) *http.Request {
 	if q.Host != "" {
 		req.Host = q.Host
 	}
+	if q.Override {
+		req.Method = http.MethodPost
+		req.Header.Set(echo.HeaderXHTTPMethodOverride, q.Method)
+	}
 	return req
 }
 
 // rServe sends one request through e and fills *cur.
-func rServe(e *echo.Echo, cur *rObs, q rReq) {
-	*cur = rObs{}
+func rServe(e *echo.Echo, cur *rObs, q rReq) { rServeFwd(e, cur, q, nil) }
+
+// rServeFwd: like rServe; with fwd != nil the handler that runs forwards internally to fwd before it returns.
+func rServeFwd(e *echo.Echo, cur *rObs, q rReq, fwd *rReq) {
+	*cur = cur.keep()
+	cur.fwd = fwd
 	func() {
 		defer func() {
 			if r := recover(); r != nil {
+				k := cur.keep()
 				*cur = rObs{Kind: 'P', Panic: fmt.Sprint(r)}
+				cur.shared = k.shared
 			}
 		}()
 		rec := httptest.NewRecorder()
@@ -425,7 +476,7 @@ func rMatchLiberal(toks []rTok, path string) bool {
 
 // ---------- generators ----------
 
-var rLits = []string{"a", "b", "ab", "abc", "users", "x.y", "a-b", "new", "v1", "t{x}", "p|q"}
+var rLits = []string{"a", "b", "ab", "abc", "users", "x.y", "a-b", "new", "v1", "t{x}", "p|q", "abd", "ne", "next", "caf\xc3\xa9", "caf\xc3\xa8"}
 var rParams = []string{":id", ":name", ":x", ":y"}
 
 // every method with its own slot in routeMethods (router.go: the eleven standard ones), custom methods of the
@@ -658,6 +709,9 @@ func rMutatePath(r *rand.Rand, p string) string {
 }
 
 func rGenPath(r *rand.Rand, routes []rRoute) string {
+	if r.Intn(50) == 0 {
+		return "*" // the asterisk form of a request target (OPTIONS *)
+	}
 	var p string
 	switch k := r.Intn(10); {
 	case k < 6:
